@@ -174,6 +174,18 @@ def fam_named_fields(quick):
         for sib in (0, 1, 2):
             fs = [Field("i32", f"sib{i}") for i in range(sib)] + [Field(ty, "fl", ["#[serde(flatten)]"])]
             out.append(one({"family": "flatten", "flattened": ty, "siblings": sib}, TypeDef("X", "struct", "named", fs)))
+    # flatten of enums with a single variant (the union has one arm: nothing left to parenthesise) whose
+    # payload may itself be a union
+    for rp, rattr in REPRS.items():
+        for plabel, variant in (("struct-variant", lambda: Variant("Only", "named", [Field("i32", "a")])),
+                                ("newtype-struct", lambda: Variant("Only", "tuple", [Field("St")])),
+                                ("newtype-enum-inline", lambda: Variant("Only", "tuple", [Field("Ei", None, ["#[ts(inline)]"])])),
+                                ("newtype-enum", lambda: Variant("Only", "tuple", [Field("Ei")]))):
+            for sib in (0, 1):
+                one_td = TypeDef("One", "enum", variants=[variant()], attrs=list(rattr))
+                fs = [Field("i32", f"sib{i}") for i in range(sib)] + [Field("One", "fl", ["#[serde(flatten)]"])]
+                out.append(Case({"family": "flatten-single-variant-enum", "repr": rp, "payload": plabel, "siblings": sib},
+                                [one_td, TypeDef("X", "struct", "named", fs)], check("X") + check("One")))
     # nested flatten / inline
     inner = TypeDef("Inner", "struct", "named", [Field("i32", "deep"), Field("St", "st", ["#[serde(flatten)]"])])
     inner_inl = TypeDef("Inner", "struct", "named", [Field("i32", "deep"), Field("St", "st", ["#[ts(inline)]"])])
